@@ -34,7 +34,12 @@ fn wide(r: &mut Rng) -> (Universe, Prob) {
 /// Everything observable about one solve, as text.
 pub fn observable(u: &Rc<Universe>, p: &Prob, opts: &SolveOpts) -> String {
     let (sess, out) = solve_once(u, p, opts);
-    match &out {
+    observable_of(&sess, &out)
+}
+
+/// Everything observable about the solve that just returned `out` on `sess`, as text.
+pub fn observable_of(sess: &crate::run::Session, out: &Outcome) -> String {
+    match out {
         Outcome::Ok(v) => format!("OK {:?}", v),
         Outcome::Unsat(c) => {
             let msg = match sess.render(c, 4_000_000, 4_000_000) {
@@ -109,7 +114,7 @@ impl Monitor for C06 {
         "C06"
     }
     fn rule(&self) -> String {
-        "cases = seeded universes biased to what makes hash order observable (many packages / candidates per conflict, large merge groups, Unsolvable results) solved with a non-yielding provider; (a) in-process: 3 fresh solver instances (each hash map gets its own random ahash seed) must return the identical solution vector (order included) or the identical user-friendly message and graphviz text (plain and simplified); (b) cross-process: the same cases are run in several separate processes (different ahash seeds, heap addresses, ASLR) and the per-case digests are compared by the check driver; (c) for a third of the cases (no favored/locked, no soft) the universe is captured into a serialised DependencySnapshot and solved through 3 freshly deserialised copies (the repository's own SnapshotProvider as the deterministic provider): identical solution vector or message, in-process and (through the digest) across processes. distinct = content hash; non-trivial = distinct Unsolvable case whose message contains a merged group ('|') or Ok case with >= 4 solvables".into()
+        "cases = seeded universes biased to what makes hash order observable (many packages / candidates per conflict, large merge groups, Unsolvable results) solved with a non-yielding provider; (d) the same problem solved twice on ONE solver with every package hinting all dependencies (then the solver knows the same before both runs): both outputs and that of a fresh solver must be identical; (a) in-process: 3 fresh solver instances (each hash map gets its own random ahash seed) must return the identical solution vector (order included) or the identical user-friendly message and graphviz text (plain and simplified); (b) cross-process: the same cases are run in several separate processes (different ahash seeds, heap addresses, ASLR) and the per-case digests are compared by the check driver; (c) for a third of the cases (no favored/locked, no soft) the universe is captured into a serialised DependencySnapshot and solved through 3 freshly deserialised copies (the repository's own SnapshotProvider as the deterministic provider): identical solution vector or message, in-process and (through the digest) across processes. distinct = content hash; non-trivial = distinct Unsolvable case whose message contains a merged group ('|') or Ok case with >= 4 solvables".into()
     }
     fn cases(&self, tier: Tier) -> u64 {
         tier.pick(96_000, 1_920_000)
@@ -176,6 +181,32 @@ impl Monitor for C06 {
                     }
                 }
                 snap_digest = fnv(&outs[0]);
+            }
+        }
+        // (d) a repeated run on ONE solver. In general a second solve may legitimately differ from
+        // the first (metadata fetched by the first one is encoded eagerly, DESIGN 7.3); when every
+        // package hints that all dependencies are available, what the solver knows before the first
+        // and before the second solve is the same, so the second run must reproduce the first
+        // output - and that of a fresh solver - exactly.
+        if ctx.case_seed % 2 == 1 {
+            let mut uh = c.u.clone();
+            for p in &mut uh.pkgs {
+                p.hint = Hint::All;
+            }
+            let uh = Rc::new(uh);
+            let fresh = observable(&uh, &c.p, opts);
+            let mut sess = crate::run::Session::new(uh.clone(), opts);
+            let o1 = sess.solve(&c.p);
+            let t1 = observable_of(&sess, &o1);
+            let o2 = sess.solve(&c.p);
+            let t2 = observable_of(&sess, &o2);
+            ctx.rep.evaluations += 3;
+            ctx.rep.count("repeated-runs-on-one-solver-compared (all packages hinted)");
+            if t1 != fresh {
+                ctx.violation("fresh solver instances give different output for the same problem", "all packages hinted: first solve of a session vs one-shot solve".to_string());
+            } else if t2 != t1 && (o1.verdict().is_some() && o2.verdict().is_some()) {
+                let (a, b) = (t1.lines().zip(t2.lines()).find(|(x, y)| x != y)).map(|(x, y)| (x.to_string(), y.to_string())).unwrap_or_default();
+                ctx.violation("a repeated run on the same solver gives different output although the solver's knowledge is the same (all packages hinted)", format!("first differing line: {:?} vs {:?}", a, b));
             }
         }
         if let Some(f) = &self.digest_file {
